@@ -11,6 +11,7 @@ CFG = dict(
     n_quick=500, n_thorough=6000, len=(8, 45),
     gen=dict(lock_bias=0.2, max_threads=4),
     exhaustive=wc.stress_parallel_creates,
+    impl_only=wc.stress_impl_only,
     what="id table, free list, validity of every handle ever issued after every step (dump), locked creation from several scripted dispatcher threads",
 )
 
